@@ -49,8 +49,8 @@ package raft
 //@   ensures [C17.stale-ignored] req.term < old(r.term) ==> result0 != success && r.term == old(r.term) && r.state == old(r.state) && r.leader == old(r.leader) && r.commitIndex == old(r.commitIndex) && r.lastLogIndex == old(r.lastLogIndex) && r.snaps.index == old(r.snaps.index)
 //@   ensures [C01.step-down] req.term >= old(r.term) ==> r.term == req.term && r.state == Follower && (r.leader == req.src || r.leader == 0)
 //@   ensures [C12.install-label] result0 == success ==> r.snaps.index == req.lastIndex && r.snaps.term == req.lastTerm
-//@   ensures [C09.install-keeps-matching-suffix] result0 == success && old(r.log.gprev) < req.lastIndex && req.lastIndex <= old(r.lastLogIndex) && old(r.gterm[req.lastIndex]) == req.lastTerm ==> r.lastLogIndex == old(r.lastLogIndex) && r.commitIndex == old(r.commitIndex) && r.configs.Latest == old(r.configs.Latest) && r.log.gprev <= req.lastIndex
-//@   ensures [C09.install-discards-otherwise] result0 == success && !(old(r.log.gprev) < req.lastIndex && req.lastIndex <= old(r.lastLogIndex) && old(r.gterm[req.lastIndex]) == req.lastTerm) ==> r.lastLogIndex == req.lastIndex && r.log.gprev == req.lastIndex && r.commitIndex == req.lastIndex && r.configs.Latest == req.lastConfig && r.configs.Committed == req.lastConfig
+//@   ensures [C09+C03.install-keeps-matching-suffix] result0 == success && old(r.log.gprev) < req.lastIndex && req.lastIndex <= old(r.lastLogIndex) && old(r.gterm[req.lastIndex]) == req.lastTerm ==> r.lastLogIndex == old(r.lastLogIndex) && r.commitIndex == old(r.commitIndex) && r.configs.Latest == old(r.configs.Latest) && r.log.gprev <= req.lastIndex
+//@   ensures [C09+C03.install-discards-otherwise] result0 == success && !(old(r.log.gprev) < req.lastIndex && req.lastIndex <= old(r.lastLogIndex) && old(r.gterm[req.lastIndex]) == req.lastTerm) ==> r.lastLogIndex == req.lastIndex && r.log.gprev == req.lastIndex && r.commitIndex == req.lastIndex && r.configs.Latest == req.lastConfig && r.configs.Committed == req.lastConfig
 //@   ensures [C19.commit-monotone] result0 == success ==> r.commitIndex >= old(r.commitIndex)
 //@   ensures [C19.snapshot-monotone] r.snaps.index >= old(r.snaps.index)
 //@   ensures [C19.order] result0 == success ==> r.log.gprev <= r.snaps.index && r.snaps.index <= r.lastLogIndex && r.commitIndex <= r.lastLogIndex && r.log.glast == r.lastLogIndex
